@@ -26,7 +26,7 @@ rm -f "$scratch/$pkgdir/zz_seed_demo_test.go"
 tout=$(go test -vet=off -count=1 $touched 2>&1); tr=$?; echo "$tout" | grep -v level= | tail -4
 echo "== checks against the patched copy"
 caught=""
-for p in $(python3 -c "import json;print(' '.join(c['property_id'] for c in json.load(open('/verif/MANIFEST.json'))['checks']))"); do
+for p in ${CHECKS:-$(python3 -c "import json;print(' '.join(c['property_id'] for c in json.load(open('/verif/MANIFEST.json'))['checks']))")}; do
   o=$(/verif/bin/govc check -p $p -repo "$scratch" -noevidence 2>&1); rc=$?
   if [ $rc -eq 1 ]; then caught="$caught $p"; echo "  $p: VIOLATION"; echo "$o" | grep '^VIOLATION' | head -2 | sed 's/^/      /'; elif [ $rc -ne 0 ]; then echo "  $p: rc=$rc"; echo "$o" | tail -2 | sed 's/^/      /'; fi
 done
